@@ -52,7 +52,7 @@ var classes = map[string]uint16{"IN": mdns.ClassINET, "ANY": mdns.ClassANY, "CH"
 var labels = map[string][]string{
 	"api":       {"router", "open"},
 	"forbidden": {"wpad", "myco"},
-	"plain":     {"svc", "bob", "a.b", "xn--bcher-kva", "router2", "wpa"},
+	"plain":     {"a.b", "xn--bcher-kva", "svc", "bob", "router2", "wpa"},
 }
 
 type recWriter struct {
@@ -86,6 +86,9 @@ func build(c *vf.Ctx, label string, inres, infr, inmap bool, spell int) (*setup,
 	st.FriendConfigs = []config.FriendConfig{{Name: "zed", IP: ids[4].IP.String()}}
 	if inres {
 		key := label + ".myco"
+		if label == "xn--bcher-kva" && spell%2 == 0 {
+			key = "bücher.myco" // the configuration spells an internationalised name in unicode; queries carry punycode
+		}
 		switch spell % 3 {
 		case 1:
 			key = strings.ToUpper(key)
@@ -288,7 +291,7 @@ func run(c *vf.Ctx) {
 		a0 := g[0]
 		lbls := labels[a0.Kind]
 		if !c.Thorough() {
-			lbls = lbls[:min(len(lbls), 2+gi%2)]
+			lbls = lbls[:min(len(lbls), 3)]
 		}
 		for li, label := range lbls {
 			s, err := build(c, label, a0.InRes, a0.InFr, a0.InMap, gi+li)
